@@ -343,6 +343,8 @@ macro_rules! core_variant {
                     inp.states[1].eval_fails = true;
                     (vec![Step::To(0), Step::To(1), Step::To(0)], 0)
                 }
+                // A -> B -> A: the parameters of the first state are applied again
+                4 => (vec![Step::To(0), Step::To(1), Step::To(0)], 0),
                 _ => panic!("unknown hist"),
             };
             if let Some(k) = deriv_fail {
@@ -385,8 +387,11 @@ macro_rules! core_variant {
                 }
             };
             out.fact("C18.build_ok", true, String::new());
-            let eps_stored = varpro::solvers::levmar::verif_access::svd_epsilon(&problem);
-            out.eq("C18.epsilon_abs", "svd_epsilon".into(), eps_stored, eps_expected);
+            #[cfg(verif_acc_eps)]
+            {
+                let eps_stored = varpro::solvers::levmar::verif_access::svd_epsilon(&problem);
+                out.eq("C18.epsilon_abs", "svd_epsilon".into(), eps_stored, eps_expected);
+            }
             // --- state right after build: C18 (starts at the model's alpha, residuals/coefficients present)
             let read = |problem: &LevMarProblem<StubModel<T>, $mrhs, $par>| -> Observed<T> {
                 Observed {
@@ -425,6 +430,11 @@ macro_rules! core_variant {
                         out.fact("C09.rejected_update_leaves_no_jacobian", o.jac.is_none(), "jacobian() is Some after the model rejected set_params".into());
                         problem.set_params(&inp.alphas[1]);
                         last_alpha = inp.alphas[1].clone();
+                    }
+                    4 => {
+                        problem.set_params(&inp.alphas[1]);
+                        problem.set_params(&inp.alphas[0]);
+                        last_alpha = inp.alphas[0].clone();
                     }
                     3 => {
                         problem.set_params(&inp.alphas[1]);
